@@ -7,8 +7,9 @@ split / close replayed on the real object and on the stateful Lean model; every 
 Tie (2) moved objects: reference reactor, two assemblies swapped between writes, histories of blocks
 and assemblies whose values encode their serial numbers.
 Tie (3) crash points: a real `Operator` with the real main + database interfaces and a fault
-injecting interface at EVERY stack position raising at EVERY one of its hook calls (every
-hook x cycle x node) of several run shapes inside `with o:`; the .h5 left in the working directory
+injecting interface at EVERY stack position aborting at EVERY one of its hook calls (every
+hook x cycle x node) of several run shapes inside `with o:` - by an ordinary exception and by
+BaseExceptions that are not Exceptions (sys.exit / SystemExit, KeyboardInterrupt); the .h5 left in the working directory
 is opened with h5py and `Database("r")` and compared with `SnapStore.fileAfterCrash`.
 Oracle: the property's clauses evaluated on the real files against a plain Python shadow record.
 """
@@ -458,15 +459,21 @@ def crash_classes():
     class Fault(interfaces.Interface):
         name = "fault"
 
-        def __init__(self, r, cs, failAt):
+        def __init__(self, r, cs, failAt, kind="exception"):
             super().__init__(r, cs)
-            self.failAt, self.k, self.calls = failAt, 0, []
+            self.failAt, self.k, self.calls, self.kind = failAt, 0, [], kind
 
         def _m(self, hook):
             self.k += 1
             self.r.core.p.keff = float(self.k)     # the state "just before the failure"
             self.calls.append((hook, int(self.r.p.cycle), int(self.r.p.timeNode)))
             if self.k == self.failAt:
+                # the KIND of abort: an ordinary exception, or a BaseException that is not an Exception
+                if self.kind == "SystemExit":
+                    import sys
+                    sys.exit(3)
+                if self.kind == "KeyboardInterrupt":
+                    raise KeyboardInterrupt()
                 raise Boom(f"{hook} call {self.k}")
 
         def interactBOL(self): self._m("BOL")
@@ -488,7 +495,10 @@ def shape_cfg(shape, pos):
             "deferred": [], "deferredCycle": 0, "coupling": coupling, "maxIters": 2, "skip": [], "halt": [], "conv": []}
 
 
-def real_crash(shape, pos, failAt):
+ABORT_KINDS = ("exception", "SystemExit", "KeyboardInterrupt")
+
+
+def real_crash(shape, pos, failAt, kind="exception"):
     """Run the real operator; returns (summary string of the file left behind, fault call log, crashed?)."""
     import h5py
     from armi.bookkeeping.db import Database
@@ -503,7 +513,7 @@ def real_crash(shape, pos, failAt):
     names = [i.name for i in o.interfaces]
     if names != ["main", "database"]:
         raise common.Infra(f"unexpected default stack {names}")
-    f = Fault(r, o.cs, failAt)
+    f = Fault(r, o.cs, failAt, kind)
     o.addInterface(f, index=pos)
     r.p.cycle, r.p.timeNode = 0, 0
     fn = o.cs.caseTitle + ".h5"
@@ -514,7 +524,7 @@ def real_crash(shape, pos, failAt):
         with common.quiet():
             with o:
                 o.operate()
-    except Boom:
+    except (Boom, SystemExit, KeyboardInterrupt):
         crashed = True
     extra = {}
     if not os.path.exists(fn):
@@ -551,18 +561,28 @@ def section_crashes(ctx):
             fidx = [i for i, e in enumerate(events) if e[1] == FAULT]
             cfgargs = c15.run_request(cfg)[4:]
             ref = c15.parse_log(c15.flat(c15.reference(cfg)))   # the independent reference schedule (oracle)
-            for K in list(range(1, len(fidx) + 1)) + [None]:
-                summ, calls, crashed, extra = real_crash(shape, pos, K)
-                case = {"shape": list(shape), "fault_position": pos, "fail_at_call": K,
+            points = [(K, "exception") for K in list(range(1, len(fidx) + 1)) + [None]]
+            # aborts that are BaseException but not Exception (sys.exit / Ctrl-C inside a hook): every point in the
+            # thorough tier; in quick every point of the first shape and every second point of the others, alternating kinds
+            for K in range(1, len(fidx) + 1):
+                if ctx.thorough:
+                    points += [(K, "SystemExit"), (K, "KeyboardInterrupt")]
+                elif shape == shapes[0] or (K + pos) % 2 == 0:
+                    points.append((K, ABORT_KINDS[1 + (K + pos) % 2]))
+            for K, kind in points:
+                summ, calls, crashed, extra = real_crash(shape, pos, K, kind)
+                case = {"shape": list(shape), "fault_position": pos, "fail_at_call": K, "abort_kind": kind,
                         "fault_call": list(calls[-1]) if calls else None}
                 if K is None:
                     reqs.append(f"complete {MAIN} {FAULT} {cfgargs}")
                 else:
-                    reqs.append(f"crash {MAIN} {FAULT} {fidx[K - 1]} {cfgargs}")
+                    reqs.append(f"crash {MAIN} {FAULT} {fidx[K - 1]} {cfgargs}")   # the crash path does not depend on the kind
                 impl.append(summ); cases.append(case)
                 ctx.count("crash point: " + (f"{calls[-1][0]} fault {'before main' if pos == 0 else 'before database' if pos == 1 else 'after database'}"
                                              if K else "complete run"))
-                ctx.case(("crash", tuple(shape), pos, K), sample=dict(case, file=summ[:200]) if (pos, K) in ((2, 4), (1, 7)) else None)
+                if K:
+                    ctx.count("abort kind: " + kind)
+                ctx.case(("crash", tuple(shape), pos, K, kind), sample=dict(case, file=summ[:200]) if (pos, K, kind) in ((2, 4, "exception"), (1, 7, "SystemExit")) else None)
                 # ---- oracle, from the reference schedule and the fault interface's own record
                 oracle_crash(ctx, case, shape, pos, K, ref, summ, calls, crashed, extra)
     model = lean_run("SnapStore", reqs)
@@ -665,7 +685,7 @@ def replay(ctx, payload):
         cfg = shape_cfg(shape, pos)
         ref = c15.parse_log(c15.flat(c15.reference(cfg)))
         with common.scratch_dir():
-            summ, calls, crashed, extra = real_crash(shape, pos, K)
+            summ, calls, crashed, extra = real_crash(shape, pos, K, case.get("abort_kind", "exception"))
         oracle_crash(sub, case, shape, pos, K, ref, summ, calls, crashed, extra)
     else:
         run(sub)
